@@ -175,6 +175,100 @@ def spec_wiring(case, pyt):
     return call, outs
 
 
+def generate(ctx):
+    import tr_state
+    text, inf = tr_state.translate(ctx.int_src("definition/pytket_circuits.py"))
+    ctx.gen("GenState.v", text)
+    return inf
+
+
+# --------------------------------------------------------------------------- histories over circuit objects
+def gen_history(r):
+    """load -> compile -> change the SAME object in place -> load again -> compile, the same unmodified object
+    twice, a .copy(), two objects with equal contents, a change between load and compile.  Every definition is
+    compiled exactly once."""
+    base = gen_case(r)
+    base.pop("stub", None)
+    ops, slots, pending, nname = [["new", "s0", base]], ["s0"], [], 0
+    mode = r.choice(["lex", "rev", "rot"])
+
+    def load(slot):
+        nonlocal nname
+        nm = f"f{nname}"
+        nname += 1
+        ops.append(["load", nm, slot, r.random() < 0.5])
+        pending.append(nm)
+
+    def compile_some(all_=False):
+        while pending and (all_ or r.random() < 0.8):
+            ops.append(["compile", pending.pop(r.randrange(len(pending))), mode])
+
+    load("s0")
+    compile_some(True)                                   # first load + compile of the object
+    for _ in range(r.randint(2, 5)):
+        k = r.random()
+        slot = r.choice(slots)
+        if k < 0.45:
+            ops.append(["mutate", slot, r.choice(["gates", "gates", "qreg", "creg", "param"])])
+            load(slot)
+        elif k < 0.6:
+            load(slot)                                   # same unmodified object again
+        elif k < 0.75:
+            new = f"s{len(slots)}"
+            ops.append(["copy", new, slot])
+            slots.append(new)
+            load(new)
+        elif k < 0.85:
+            new = f"s{len(slots)}"
+            ops.append(["new", new, base])               # a different object with the original contents
+            slots.append(new)
+            load(new)
+        else:
+            load(slot)                                   # change between load and compile
+            ops.append(["mutate", slot, r.choice(["gates", "param", "qreg"])])
+        compile_some()
+    compile_some(True)
+    return {"mode": mode, "ops": ops}
+
+
+def order_by_mode(names, mode):
+    names = sorted(names)
+    return names[::-1] if mode == "rev" else (names[1:] + names[:1]) if mode == "rot" and names else names
+
+
+def coq_contents(desc, mode, gate_ids):
+    rank = {n: i for i, n in enumerate(sorted(desc["symbols"]))}
+    q = "[" + "; ".join(str(s) for _, s in desc["q_registers"]) + "]%nat"
+    c = "[" + "; ".join(str(s) for _, s in desc["c_registers"]) + "]%nat"
+    m = "[" + "; ".join(f"{10 * rank[n] + 3}%Z" for n in order_by_mode(desc["symbols"], mode)) + "]"
+    g = "[" + "; ".join(f"{gate_ids.setdefault(x, len(gate_ids))}%Z" for x in desc["commands"]) + "]"
+    return f"(mkContents (mkCirc {q} {c} {m}) {g})"
+
+
+HIST_HEADER = COQ_HEADER.replace("From V.C26 Require Import Model.", "From V.C26 Require Import Model History GenState.") + """
+Definition encr (r : option result) :=
+  match r with
+  | None => ([], [], ([], []), ([], ([], [])))
+  | Some x => (map encw (r_call x), map (map encw) (r_outs x), encs (r_sig x),
+               (k_gates (r_body x), (map N (q_regs (k_circ (r_body x))) ++ [-1] ++ map N (c_regs (k_circ (r_body x))), meta (k_circ (r_body x)))))
+  end.
+"""
+
+
+def coq_history(hist, recs, gate_ids):
+    slot_id, def_id, ops = {}, {}, []
+    for op, rec in zip(hist["ops"], recs):
+        if op[0] in ("new", "copy", "mutate"):
+            o = slot_id.setdefault(op[1], len(slot_id))
+            ops.append(f"HSet {o} {coq_contents(rec['contents'], hist['mode'], gate_ids)}")
+        elif op[0] == "load":
+            n = def_id.setdefault(op[1], len(def_id))
+            ops.append(f"HLoad {n} {slot_id[op[2]]} {'true' if op[3] else 'false'}")
+        else:
+            ops.append(f"HCompile {def_id[op[1]]}")
+    return "map encr (run gen_cached init [" + "; ".join(ops) + "]%nat)"
+
+
 def parse_model(out):
     import ast as _ast
     m = re.search(r"=\s(.*?)\n\s+: list", out, re.S)
@@ -193,13 +287,20 @@ def run(ctx):
         if _seen[cat] <= 3 or ctx.is_known(key) is not None:      # at most 3 replays per category of failure
             _orig_report(key, kind, name, detail, found_input)
     ctx.report = _capped
+    scan = generate(ctx)
     info = ctx.coq_props()
     r = vlib.rng(ctx.seed, "C26")
+    hr = vlib.rng(ctx.seed, "C26-histories")
+    histories = [gen_history(hr) for _ in range(30 if ctx.quick else 250)]
+    hcorpus = ctx.dir / "corpus"
+    if hcorpus.exists():
+        for f in sorted(hcorpus.glob("history_*.json")):
+            histories.insert(0, json.loads(f.read_text()))
     n = 120 if ctx.quick else 1200
     cases = []
     corpus = ctx.dir / "corpus"
     if corpus.exists():
-        for f in sorted(corpus.glob("*.json")):
+        for f in sorted(corpus.glob("case_*.json")):
             cases.append(json.loads(f.read_text()))
     for _ in range(n):
         c = gen_case(r)
@@ -208,8 +309,9 @@ def run(ctx):
         cases.append(c)
     payload = {"cases": [{**c, "stub": ({"src": c["stub"]["src"].replace("@ owned", "@ owned")} if c.get("stub") else None)} for c in cases]}
     # the stub module needs `owned`
-    impl_raw = ctx.impl("impl_pytket.py", payload)
-    impl = json.loads(impl_raw)["results"]
+    payload["histories"] = [h["ops"] for h in histories]
+    impl_all = json.loads(ctx.impl("impl_pytket.py", payload))
+    impl, himpl = impl_all["results"], impl_all["histories"]
     model = None
     usable = [k for k, res in enumerate(impl) if "pytket" in res]
     if info["ok"] or (vlib.COQ / "C26" / "Model.vo").exists():
@@ -302,6 +404,89 @@ def run(ctx):
                                "stub acceptance differs from 'accepted iff its signature equals the circuit's'",
                                {**desc, "pytket": pyt, "real": acc, "error": res.get("stub_error"), "expected_accept": m_acc,
                                 "inferred_signature": res["sig"], "replay": replay})
+    # ------------------------------------------------------------------ histories
+    hstats = {"histories": len(histories), "compiles": 0, "compiles_after_inplace_change": 0, "same_object_again": 0,
+              "copies": 0, "stale_or_wrong": 0, "errors": 0, "model_compared": 0}
+    hmodel = None
+    gate_ids = {}
+    if (vlib.COQ / "C26" / "History.vo").exists() and (vlib.COQ / "C26" / "GenState.vo").exists():
+        try:
+            ok_h = [i for i, recs in enumerate(himpl) if all("contents" in rc for op, rc in zip(histories[i]["ops"], recs) if op[0] in ("new", "copy", "mutate"))]
+            files = {}
+            for ci in range(0, len(ok_h), 60):
+                ks = ok_h[ci:ci + 60]
+                files[f"h{ci}"] = HIST_HEADER + "Definition outs := [\n" + ";\n".join(coq_history(histories[i], himpl[i], gate_ids) for i in ks) + "].\nEval vm_compute in outs.\n"
+            outs = ctx.coq_eval_many(files)
+            hmodel = {}
+            for ci in range(0, len(ok_h), 60):
+                for i, v in zip(ok_h[ci:ci + 60], parse_model(outs[f"h{ci}"])):
+                    hmodel[i] = v
+        except RuntimeError as e:
+            ctx.notes.append("history model evaluation failed: " + str(e)[-500:])
+    for i, (hist, recs) in enumerate(zip(histories, himpl)):
+        seen_compile_of, changed_since = {}, {}
+        slot_of = {}
+        for j, (op, rec) in enumerate(zip(hist["ops"], recs)):
+            hdesc = {"history": hist["ops"][:j + 1], "parameter_order_of_mock": hist["mode"], "step": j}
+            hreplay = ("cd /verif && echo '{\"cases\": [], \"histories\": [<the history above>]}' | VERIF_REPO=<repo> PYTHONPATH=tools:<repo>/guppylang/src:"
+                       "<repo>/guppylang-internals/src /venv/bin/python props/C26/impl_pytket.py   (compare \"body\" with \"current\" of the last compile)")
+            if "err" in rec or "unsupported" in rec:
+                hstats["errors"] += 1
+                ctx.report(f"history-error:{json.dumps(hdesc, sort_keys=True)}", "counterexample",
+                           "a load/compile history over a circuit object fails although each step is valid on its own",
+                           {**hdesc, "error": rec.get("err") or rec.get("unsupported"), "traceback": rec.get("tb"), "replay": hreplay})
+                break
+            if op[0] == "load":
+                slot_of[op[1]] = (op[2], op[3])
+            if op[0] == "mutate":
+                changed_since[op[1]] = True
+            if op[0] == "copy":
+                hstats["copies"] += 1
+            if op[0] != "compile":
+                continue
+            slot, arrays = slot_of[op[1]]
+            hstats["compiles"] += 1
+            if slot in seen_compile_of:
+                hstats["compiles_after_inplace_change" if changed_since.get(slot) else "same_object_again"] += 1
+            seen_compile_of[slot] = True
+            changed_since[slot] = False
+            cur, body = rec["current"], rec["body"]
+            case_now = {"arrays": arrays, "symbols": cur["symbols"], "meta_order": order_by_mode(cur["symbols"], hist["mode"])}
+            s_call, s_outs = spec_wiring(case_now, cur)
+            got_call = [encw_py(x) for x in rec["wiring"]["call_args"]]
+            got_outs = [[encw_py(x) for x in grp] for grp in rec["wiring"]["outputs"]]
+            body_core = {k: body[k] for k in ("commands", "q_registers", "c_registers", "symbols")} if body else None
+            cur_core = {k: cur[k] for k in ("commands", "q_registers", "c_registers", "symbols")}
+            distinct.add(json.dumps([got_call, got_outs, cur_core["commands"]]))
+            if body_core != cur_core or got_call != s_call or got_outs != s_outs:
+                hstats["stale_or_wrong"] += 1
+                ctx.report(f"history:{json.dumps(hdesc, sort_keys=True)}", "counterexample",
+                           "after this history the compiled function does not reflect the circuit object's contents at compile time",
+                           {**hdesc, "circuit_now": cur_core, "body_called_was_converted_from": body_core,
+                            "expected_call_args": s_call, "traced_call_args": got_call, "expected_outputs": s_outs, "traced_outputs": got_outs,
+                            "signature": rec.get("sig"), "replay": hreplay})
+            if hmodel is not None and i in hmodel:
+                m_call, m_outs, m_sig, m_body = conv(hmodel[i][j])
+                hstats["model_compared"] += 1
+                impl_sig = [[enc_type_str(t) + [1 if io else 0] for t, io in rec["sig"]["inputs"]], enc_type_str(rec["sig"]["output"])]
+                impl_body = [[gate_ids.get(x, -5) for x in body["commands"]],
+                             [[s_ for _, s_ in body["q_registers"]] + [-1] + [s_ for _, s_ in body["c_registers"]],
+                              [10 * sorted(body["symbols"]).index(n_) + 3 for n_ in body["meta_order"]]]] if body else None
+                if m_call != got_call or m_outs != got_outs or [list(m_sig[0]), list(m_sig[1])] != impl_sig or \
+                        [list(m_body[0]), [list(m_body[1][0]), list(m_body[1][1])]] != impl_body:
+                    hstats["stale_or_wrong"] += 1
+                    ctx.report(f"history-model:{json.dumps(hdesc, sort_keys=True)}", "counterexample",
+                               "loader state machine (no state between compiles) and the real loader disagree on this history",
+                               {**hdesc, "model": {"call": m_call, "outputs": m_outs, "sig": m_sig, "body": m_body},
+                                "real": {"call": got_call, "outputs": got_outs, "sig": impl_sig, "body": impl_body},
+                                "circuit_now": cur_core, "body_called_was_converted_from": body_core, "replay": hreplay})
+    if hmodel is None:
+        ctx.report("history-model-unavailable", "correspondence", "loader state machine could not be evaluated", {"notes": ctx.notes[-3:]}, found_input=False)
+    if scan["state"] and not ctx.violations:
+        ctx.report("module-state:" + ",".join(scan["state"]), "proof-broken", "loader_has_no_module_state",
+                   {"module_level_state_found": scan["state"], "histories_searched": len(histories),
+                    "meaning": "pytket_circuits.py now keeps state between compiles; no history distinguishing it from the stateless loader was found"},
+                   found_input=False)
     if not info["ok"] and not ctx.violations:
         ctx.report("proof-broken:" + str(info["failed"]), "proof-broken", str(info["failed"]),
                    {"coq_error": vlib.CoqResult(False, info["log"]).error_excerpt(), "searched_cases": len(cases)}, found_input=False)
@@ -320,10 +505,10 @@ def run(ctx):
                      "outputs_bits_then_qubits, arrays_repacked, signature_counts, stub_accepted_iff. Tie: real _signature_from_circuit and real stub "
                      "check on generated pytket circuits; compile_outer against a mock of Tk2Circuit (real conversion not importable here) with the "
                      "call wiring read from the HUGR, compared with the model and, independently, with the property's wording."),
-        evaluations=len(cases), distinct_nontrivial=len(distinct),
+        evaluations=len(cases) + hstats["compiles"], distinct_nontrivial=len(distinct),
         rule="seeded random circuits: 1-3 qubit registers (names added in random order, sizes 1-3), 0-2 bit registers, 0-4 symbols with a random "
              "metadata order, arrays on/off, stubs exact or mutated (10 kinds); distinct/non-trivial = distinct traced (call arguments, outputs) wirings",
-        traces_validated_against_impl=stats["wiring_traced"], stats=stats,
+        traces_validated_against_impl=stats["wiring_traced"] + hstats["compiles"], stats=stats, history_stats=hstats, module_state_scan=scan,
         samples=[{"case": cases[j], "impl": impl[j]} for j in (0, len(cases) // 2, len(cases) - 1)], notes=ctx.notes[:10])
     return ctx.finish(LEVEL, cov, ["Tk2Circuit orders the converted function's ports as circ.qubits, circ.bits, then the listed parameters (mock does)",
                                    "pytket reports registers in lexicographic order (checked on every generated circuit)",
